@@ -257,6 +257,39 @@ def flag_eval(ctx, it, variant, code, depth=3):
         return r.v
 
 
+def bytes_unmodified(ctx, rep):
+    """R14.2 (reader side, on MIR): the six bytes that are matched against the table are the six bytes that were read - nowhere
+    in Track's reader (its closures and the Track helpers it calls) is a byte array / byte slice handed out mutably or stored
+    into.  A reader that normalises the bytes first (zeroing after a NUL, upper-casing) makes several wire values decode to one
+    configuration although the table itself is unchanged."""
+    from mirq import callee
+    fam = [n for n in sorted(ctx.mir.bodies) if n.startswith("<insim_core::track::Track as binrw::binread::BinRead>::read_options") and not n.endswith("#promoted")]
+    called = set()
+    for n in fam:
+        b = ctx.mir.body(n)
+        for _bb, t in (b.calls() if b is not None else []):
+            d = callee(t)[1] or callee(t)[0] or ""
+            if d.startswith("insim_core::track::") and d in ctx.mir.bodies:
+                called.add(d)
+    bad = []
+    for n in fam + sorted(called):
+        b = ctx.mir.body(n)
+        if b is None:
+            continue
+        for bb, t in b.calls():
+            for ai, aty in enumerate(t.get("argtys") or []):
+                if re.match(r"^&mut \[u8(; \d+)?\]$", str(aty)):
+                    bad.append("%s hands the bytes mutably to %s" % (n.split("::")[-1], (callee(t)[0] or "?").split("::")[-1]))
+        for bl in b.blocks:
+            for st in bl["stmts"]:
+                if st["k"] == "assign" and st["place"]["p"] and re.match(r"^\[u8; \d+\]$", str(b.locals[st["place"]["l"]].get("ty", ""))) \
+                        and any(isinstance(pr, dict) and ("index" in pr or "cidx" in pr) for pr in st["place"]["p"]):
+                    bad.append("%s stores into the byte array" % n.split("::")[-1])
+    rep.check("R14.2", "read:bytes-unmodified", bool(fam) and not bad,
+              "Track's reader changes the bytes before they are matched (%s): more than one six-byte value can then decode to one configuration" % "; ".join(sorted(set(bad)))
+              if bad else "Track's reader not found", None, sample={"bodies_examined": len(fam) + len(called)})
+
+
 def run(ctx, rep):
     rep.explanation = EXPLANATION
     rep.assumptions = ["binrw reads/writes [u8; 6] as six consecutive bytes"]
@@ -414,6 +447,7 @@ def run(ctx, rep):
         else:
             area_lic[area] = (l[0], v)
             rep.check("R14.4", "%s:licence" % v, l[0] is not None and l[0].startswith("License::"), "licence row of %s" % v, ctx.loc(le, l[1]), nontrivial=False)
+    bytes_unmodified(ctx, rep)
     rep.floor("R14.2", 2 * 154)
     rep.floor("R14.4", 3 * 154)
     rep.floor("R14.1", 7)
